@@ -414,6 +414,29 @@ def run(db: DB, rep: Report) -> None:
         raise AnalysisError("fewer than 3 clock-timed component classes found in Collector (%d)" % n_clock)
 
     # ---- S5: one feed per Einsum
+    # ---- S9: the reported blocks are the fusion object's blocks, in its order
+    rep.rule("S9", "metrics['blocks'] is emitted from Fusion.get_blocks() without re-ordering", 1)
+    bt9 = db.func("teaal.trans.collector.Collector.__build_time")
+    sites9 = [n for n in walk_no_nested(bt9.node) if isinstance(n, ast.Call) and norm(n.func) == "SAssign" and
+              len(n.args) == 2 and any(isinstance(c, ast.Constant) and c.value == "blocks"
+                                       for c in ast.walk(n.args[0]))]
+    if len(sites9) != 1:
+        rep.undecided("S9", where(bt9.node), bt9.short, "the assignment of metrics['blocks'] was not found")
+    else:
+        val = paths.resolve_flow(sites9[0].args[1], sites9[0], bt9.node, depth=4)
+        txt = norm(val)
+        reorder = [x for x in ast.walk(val) if isinstance(x, ast.Call) and
+                   ((isinstance(x.func, ast.Name) and x.func.id in ("sorted", "set", "frozenset", "reversed")) or
+                    (isinstance(x.func, ast.Attribute) and x.func.attr in ("sort", "reverse")))]
+        from_fusion = "get_blocks()" in txt
+        rep.check("S9", from_fusion and not reorder, where(sites9[0]), bt9.short, "blocks-literal",
+                  "metrics['blocks'] = %s" % txt[:60],
+                  "the blocks written to metrics['blocks'] are %s: they are %s, so the reported blocks no "
+                  "longer list the Einsums in program order as the fusion object grouped them" %
+                  (txt[:80], "passed through %s" % norm(reorder[0].func) if reorder else
+                   "not taken from Fusion.get_blocks()"),
+                  decided=bool(reorder) or from_fusion)
+
     rep.rule("S5", "HiFiber.__translate calls fusion.add_einsum once, under the guard that "
              "builds Metrics, outside any loop", 1)
     tr = db.func("teaal.trans.hifiber.HiFiber.__translate")
@@ -453,18 +476,23 @@ def run(db: DB, rep: Report) -> None:
                   "Fusion.add_einsum is also called from %s; an Einsum could be listed twice" % g.short)
 
 
-def _check_prefix(db: DB, rep: Report, f, local: str) -> None:
+def _check_prefix(db: DB, rep: Report, f, local: Optional[str], L: Optional[str] = None,
+                  S: Optional[str] = None, depth: int = 0) -> None:
+    """``local`` None: the prefix is what ``f`` returns (a helper the prefix was moved into)."""
     fn = f.node
-    L = S = None
-    for n in walk_no_nested(fn):
-        if isinstance(n, ast.Assign) and len(n.targets) == 1 and isinstance(n.targets[0], ast.Name):
-            cs = paths.called_names([n.value])
-            if "get_loop_order" in cs and "get_ranks" in cs:
-                L = n.targets[0].id
-            if "get_space" in cs:
-                S = n.targets[0].id
-    if L is None or S is None:
-        raise AnalysisError("loop-rank / space-rank locals of Fusion.add_einsum not found")
+    if L is None:
+        for n in walk_no_nested(fn):
+            if isinstance(n, ast.Assign) and len(n.targets) == 1 and isinstance(n.targets[0], ast.Name):
+                cs = paths.called_names([n.value])
+                if "get_loop_order" in cs and "get_ranks" in cs:
+                    L = n.targets[0].id
+                if "get_space" in cs:
+                    S = n.targets[0].id
+    if L is None:
+        raise AnalysisError("loop-rank local of Fusion.add_einsum not found")
+    if S is None:
+        # the space ranks are not held in a local: a helper of the SpaceTime object may compute the prefix
+        S = "<no local for the space ranks>"
 
     def is_whole(v: ast.AST) -> bool:
         t = norm(v)
@@ -487,12 +515,32 @@ def _check_prefix(db: DB, rep: Report, f, local: str) -> None:
             if kw.arg == "default":
                 return norm(kw.value)
         return ""
-    defs = [(st, v) for st, v in paths.defs_of(fn, local) if v is not None]
+    if local is not None:
+        defs = [(st, v) for st, v in paths.defs_of(fn, local) if v is not None]
+    else:
+        defs = [(st, st.value) for st in walk_no_nested(fn) if isinstance(st, ast.Return) and st.value is not None]
     if not defs:
         raise AnalysisError("no definition of the incoming temporal prefix found")
     sdefs = {k: val for k, val in paths.single_assignments(fn).items() if k not in (L, S)}
     for st, v in defs:
         v = paths.inline_locals(v, fn, sdefs)
+        # the prefix is computed by a method of another object (given the loop order): analyse that method
+        if depth < 2 and isinstance(v, ast.Call) and isinstance(v.func, ast.Attribute) and \
+                any(norm(a) == L for a in v.args):
+            cands = [g for g in db.resolve_call(v, f) if g.cls is not None and g is not f]
+            if len(cands) == 1:
+                g = cands[0]
+                k = [norm(a) for a in v.args].index(L)
+                if k < len(g.call_params):
+                    # the space ranks inside g: the field its get_space() returns, or get_space() itself
+                    s_txt = "self.get_space()"
+                    gs_ = g.cls.lookup("get_space")
+                    if gs_ is not None:
+                        rets_ = [n for n in walk_no_nested(gs_.node) if isinstance(n, ast.Return) and n.value is not None]
+                        if len(rets_) == 1:
+                            s_txt = norm(rets_[0].value)
+                    _check_prefix(db, rep, g, None, g.call_params[k], s_txt, depth + 1)
+                    continue
         if isinstance(v, ast.Call) and isinstance(v.func, ast.Name) and v.func.id in ("set", "frozenset", "sorted") \
                 and len(v.args) == 1:
             rep.check("S7", False, db.loc(st), f.short, "prefix:unordered:" + v.func.id,
@@ -558,6 +606,25 @@ def _check_prefix(db: DB, rep: Report, f, local: str) -> None:
                                         "checker does not recognise; it cannot decide rule S7" %
                                         (norm(v)[:80], where))
                 continue
+            # L[:b] with  b = D ; if S: b = L.index(S[0])   (default then override)
+            if isinstance(up, ast.Name):
+                bdefs = [(st_, v_) for st_, v_ in paths.defs_of(fn, up.id) if v_ is not None]
+                with_s = [v_ for st_, v_ in bdefs if any((norm(a), p) == (S, True) for t_, pol_ in
+                                                          paths.guards(st_, stop=fn)
+                                                          for a, p in paths.conjuncts(t_, pol_))]
+                rest_ = [v_ for st_, v_ in bdefs if not any(norm(a) == S for t_, pol_ in
+                                                            paths.guards(st_, stop=fn)
+                                                            for a, p in paths.conjuncts(t_, pol_))]
+                if len(with_s) == 1 and first_space_index(with_s[0]) and len(rest_) == 1:
+                    dflt = norm(rest_[0])
+                    ok = dflt in ("len(%s)" % L, "None")
+                    rep.check("S7", ok, where, f.short, "prefix:default-then-index(default=%s)" % dflt,
+                              "prefix stops before the first spatial rank, else at %s" % dflt,
+                              "for an Einsum without spatial ranks the temporal prefix becomes %s[:%s] "
+                              "instead of the whole loop order: purely temporal Einsums with different "
+                              "loop orders would compare equal and be fused" % (L, dflt),
+                              decided=ok or isinstance(rest_[0], ast.Constant))
+                    continue
             mi = min_index(sl.upper) if sl.upper is not None else None
             if mi is not None:
                 ok = mi == "len(%s)" % L or s_true
@@ -577,6 +644,9 @@ def mutants(db: DB):
     dec = ("if config == self.curr_config and fused_ranks == self.fused_ranks and not "
            "self.components_used.intersection(\n                components_used):")
     return [
+        M("reported blocks sorted", "teaal/trans/collector.py",
+          "        blocks = TransUtils.build_expr(self.fusion.get_blocks())",
+          "        blocks = TransUtils.build_expr(sorted(self.fusion.get_blocks()))", "S9"),
         M("no spatial ranks: empty prefix", "teaal/ir/fusion.py",
           "        if space_ranks:\n            fused_ranks = loop_ranks[:loop_ranks.index(space_ranks[0])]\n        else:\n            fused_ranks = loop_ranks",
           "        fused_ranks = loop_ranks[:(loop_ranks.index(space_ranks[0]) if space_ranks else 0)]", "S7"),
